@@ -270,14 +270,20 @@ func solveOne(o *Obligation, dir string, timeoutS int, agree bool, seed int) {
 	}
 	if qfScript != "" && qfScript != script {
 		// first attempt: hypotheses instantiated by the engine, no quantifier left for the solver
-		qt := timeoutS
-		if qt > 6 {
+		qt := timeoutS / 2
+		if qt < 6 {
 			qt = 6
+		}
+		if qt > timeoutS {
+			qt = timeoutS
 		}
 		rq := runSolvers(dir, base+"_qf", qfScript, qt, false, seed)
 		if rq.status == "unsat" {
 			o.Status, o.Solver, o.TimeMS, o.Output = "unsat", rq.solver+"(ground-instantiated)", rq.ms, rq.output
 			return
+		}
+		if rq.ms >= int64(qt)*900 {
+			o.QFTimedOut = true // the instantiated attempt ran out of time: a loaded machine, not a verdict
 		}
 	}
 	r := runSolvers(dir, base, script, timeoutS, agree && !o.Cover, seed)
@@ -336,8 +342,8 @@ func funcsForProperty(cs *Contracts, prop string) []string {
 			continue
 		}
 		use := hasTag(fc.Props, prop) || hasTag(fc.SafeTags, prop)
-		if prop == "C10" && len(cs.Shared) > 0 && fc.Mode != "" && !fc.Pure {
-			use = true // the access discipline is checked in every function under contract
+		if (prop == "C10" || prop == "C11") && len(cs.Shared) > 0 && fc.Mode != "" && !fc.Pure {
+			use = true // the access discipline (C10) and lock balance / callbacks-unlocked (C11) are checked in every function under contract
 		}
 		for _, e := range fc.Ensures {
 			if hasTag(e.Tags, prop) {
